@@ -52,3 +52,7 @@ pub mod io {
     pub use super::errors::Result;
     pub use super::IoErrorKind as ErrorKind;
 }
+
+//@trusted T2 Result::unwrap_or(default) is the Ok value, or `default` for an Err (std; not specified by this vstd: without it a rewrite of the code under contract that swallows an error this way would leave the verifier's reach)
+pub assume_specification<T, E>[core::result::Result::<T, E>::unwrap_or](r: core::result::Result<T, E>, default: T) -> (v: T)
+    ensures v == (match r { core::result::Result::Ok(x) => x, core::result::Result::Err(_) => default });
